@@ -208,6 +208,9 @@ class Data(Entity):
 
         self._association = value
 
+        if hasattr(self, "_entity_type"):
+            self.workspace.update_attribute(self, "attributes")
+
     @property
     def modifiable(self) -> bool:
         """
